@@ -7,6 +7,7 @@ import Mathlib.Algebra.Order.Field.Rat
 import Mathlib.Algebra.BigOperators.Field
 import Mathlib.Algebra.BigOperators.Ring.Finset
 import Mathlib.Algebra.BigOperators.Group.Finset.Sigma
+import Mathlib.Algebra.Order.BigOperators.Group.Finset
 import Mathlib.Tactic.Ring
 import Mathlib.Tactic.FieldSimp
 import Mathlib.Tactic.Linarith
@@ -1217,4 +1218,297 @@ theorem xi_exact_aux (K : Nat) (pi : Nat → Rat) (A : Nat → Nat → Rat) (b0 
 
 end exact
 
+/-! ### Deepening round D: conservation of samples by dwell extraction -/
+
+theorem insertU_lt (x : Int) : ∀ l : List Int, l.Pairwise (· < ·) → (insertU x l).Pairwise (· < ·)
+  | [], _ => by simp [insertU]
+  | y :: ys, h => by
+    have hy := List.pairwise_cons.mp h
+    simp only [insertU]
+    by_cases h1 : x < y
+    · rw [if_pos h1]
+      refine List.pairwise_cons.mpr ⟨?_, h⟩
+      intro z hz
+      simp only [List.mem_cons] at hz
+      rcases hz with rfl | hz
+      · exact h1
+      · exact Int.lt_trans h1 (hy.1 z hz)
+    · rw [if_neg h1]
+      by_cases h2 : x = y
+      · rw [if_pos h2]; exact h
+      · rw [if_neg h2]
+        refine List.pairwise_cons.mpr ⟨?_, insertU_lt x ys hy.2⟩
+        intro z hz
+        rcases (mem_insertU x z ys).mp hz with rfl | hz
+        · omega
+        · exact hy.1 z hz
+
+theorem uniq_lt : ∀ l : List Int, (uniq l).Pairwise (· < ·)
+  | [] => by simp [uniq]
+  | x :: xs => by
+    have := insertU_lt x (uniq xs) (uniq_lt xs)
+    simpa [uniq] using this
+
+theorem uniq_nodup (l : List Int) : (uniq l).Nodup :=
+  (uniq_lt l).imp (fun h => Int.ne_of_lt h)
+
+theorem sum_ite_nodup (w : Int) (k : Int) : ∀ U : List Int, U.Nodup → k ∈ U →
+    (U.map (fun s => if k = s then w else 0)).sum = w
+  | [], _, h => by simp at h
+  | u :: us, hn, h => by
+    have hn' := List.nodup_cons.mp hn
+    simp only [List.map_cons, List.sum_cons]
+    by_cases hk : k = u
+    · subst hk
+      rw [if_pos rfl]
+      have : (us.map (fun s => if k = s then w else 0)).sum = 0 := by
+        apply List.sum_eq_zero
+        intro x hx
+        obtain ⟨s, hs, rfl⟩ := List.mem_map.mp hx
+        rw [if_neg]; rintro rfl; exact hn'.1 hs
+      omega
+    · rw [if_neg hk]
+      have hmem : k ∈ us := by
+        simp only [List.mem_cons] at h; rcases h with h | h
+        · exact absurd h hk
+        · exact h
+      rw [sum_ite_nodup w k us hn'.2 hmem]; omega
+
+/-- regrouping a sum over runs by state -/
+theorem sum_by_state (U : List Int) (hU : U.Nodup) : ∀ R : List Run, (∀ r ∈ R, r.state ∈ U) →
+    (U.map (fun s => ((R.filter (fun r => r.state = s)).map Run.len).sum)).sum = (R.map Run.len).sum
+  | [], _ => by simp
+  | r :: rs, h => by
+    have ih := sum_by_state U hU rs (fun x hx => h x (by simp [hx]))
+    have e : ∀ s, (((r :: rs).filter (fun r => r.state = s)).map Run.len).sum
+        = (if r.state = s then r.len else 0) + ((rs.filter (fun r => r.state = s)).map Run.len).sum := by
+      intro s
+      by_cases hs : r.state = s
+      · rw [List.filter_cons_of_pos (by simpa using hs), if_pos hs]; simp
+      · rw [List.filter_cons_of_neg (by simpa using hs), if_neg hs]; simp
+    simp only [e]
+    rw [List.sum_map_add, ih, sum_ite_nodup r.len r.state U hU (h r (by simp))]
+    simp
+
+theorem contig_sum_len : ∀ (R : List Run) (i n : Nat), Contig i n R → (R.map Run.len).sum = (n : Int) - i
+  | [], i, n, h => by simp only [Contig] at h; subst h; simp
+  | r :: R, i, n, h => by
+    simp only [Contig] at h
+    have := contig_sum_len R r.stop n h.2.2
+    simp only [List.map_cons, List.sum_cons, this, Run.len]
+    omega
+
+theorem dwellCounts_sum (l : List Run) : (dwellCounts (l.map Run.range)).sum = (l.map Run.len).sum := by
+  simp only [dwellCounts, List.map_map]
+  rfl
+
+theorem rle_state_mem (path : List Int) : ∀ r ∈ rle path, r.state ∈ path := by
+  intro r hr
+  have hc : Contig 0 path.length (rle path) := by simpa [rle] using contig_rleFrom path 0
+  have hm := contig_mem _ _ _ hc r hr
+  have := contig_constant _ _ _ hc r hr r.start (Nat.le_refl _) hm.2.1
+  have he : expand (rle path) = path := expand_rleFrom path 0
+  rw [he, Nat.sub_zero] at this
+  exact List.mem_of_getElem? this
+
+
+/-! ### Deepening round D: the `isfinite` assertion -/
+
+theorem mapM_id_some : ∀ p : List Int, (p.map some).mapM id = some p
+  | [] => rfl
+  | x :: xs => by
+    simp only [List.map_cons, List.mapM_cons, id_eq]
+    rw [mapM_id_some xs]; rfl
+
+theorem mapM_id_none : ∀ path : List (Option Int), none ∈ path → path.mapM id = none
+  | [], h => by simp at h
+  | none :: xs, _ => by simp [List.mapM_cons]
+  | some x :: xs, h => by
+    have h' : none ∈ xs := by simpa using h
+    simp only [List.mapM_cons, id_eq]
+    rw [mapM_id_none xs h']; rfl
+
+theorem all_some_or_none : ∀ path : List (Option Int), (∃ p : List Int, path = p.map some) ∨ none ∈ path
+  | [] => Or.inl ⟨[], rfl⟩
+  | none :: xs => Or.inr (by simp)
+  | some x :: xs => by
+    rcases all_some_or_none xs with ⟨p, rfl⟩ | h
+    · exact Or.inl ⟨x :: p, rfl⟩
+    · exact Or.inr (by simp [h])
+
+
+/-! ### Deepening round D: positivity (the code establishes `c_t ≠ 0`) -/
+
+section pos
+open Finset
+
+theorem sumK_nonneg (K : Nat) (f : Nat → Rat) (h : ∀ i, i < K → 0 ≤ f i) : 0 ≤ sumK K f := by
+  rw [sumK_eq]; exact Finset.sum_nonneg (fun i hi => h i (Finset.mem_range.mp hi))
+
+/-- weights `u ≥ 0` with a positive total against strictly positive `b`: the weighted sum is positive -/
+theorem sumK_mul_pos (K : Nat) (u b : Nat → Rat) (hu : ∀ j, j < K → 0 ≤ u j)
+    (hb : ∀ j, j < K → 0 < b j) (hs : 0 < sumK K u) : 0 < sumK K (fun j => u j * b j) := by
+  rw [sumK_eq] at hs ⊢
+  have hex : ∃ j ∈ range K, 0 < u j := by
+    by_contra hne
+    have : ∑ j ∈ range K, u j ≤ 0 :=
+      Finset.sum_nonpos (fun j hj => not_lt.mp (fun h => hne ⟨j, hj, h⟩))
+    exact absurd hs (not_lt.mpr this)
+  obtain ⟨j, hj, hpos⟩ := hex
+  exact Finset.sum_pos' (fun i hi => mul_nonneg (hu i (mem_range.mp hi)) (hb i (mem_range.mp hi)).le)
+    ⟨j, hj, mul_pos hpos (hb j (mem_range.mp hj))⟩
+
+/-- A forward step as the code leaves it for a model with probability weights and positive emissions. -/
+def GoodStep (K : Nat) (s : Step) : Prop :=
+  0 < s.c ∧ (∀ j, j < K → 0 ≤ atR s.alpha j) ∧ (∀ j, j < K → 0 < atR s.b j)
+
+theorem normStep_good (K : Nat) (a b : Vec) (ha : ∀ j, j < K → 0 ≤ atR a j)
+    (hc : 0 < sumK K (atR a)) (hb : ∀ j, j < K → 0 < atR b j) :
+    GoodStep K (normStep K a b) ∧ sumK K (atR (normStep K a b).alpha) = 1 ∧
+      ∀ j, j < K → 0 < atR a j → 0 < atR (normStep K a b).alpha j := by
+  have hc' : 0 < (normStep K a b).c := hc
+  refine ⟨⟨hc', ?_, hb⟩, normStep_sum K a b (ne_of_gt hc'), ?_⟩
+  · intro j hj; rw [normStep_alpha K a b j hj]; exact div_nonneg (ha j hj) hc'.le
+  · intro j hj h; rw [normStep_alpha K a b j hj]; exact div_pos h hc'
+
+theorem initStep_good (K : Nat) (pi : Nat → Rat) (b0 : Vec) (hpi : ∀ i, i < K → 0 ≤ pi i)
+    (hs : 0 < sumK K pi) (hb : ∀ j, j < K → 0 < atR b0 j) :
+    GoodStep K (initStep K pi b0) ∧ sumK K (atR (initStep K pi b0).alpha) = 1 ∧
+      ∀ j, j < K → 0 < pi j → 0 < atR (initStep K pi b0).alpha j := by
+  unfold initStep
+  obtain ⟨h1, h2, h3⟩ := normStep_good K (tab K (fun j => pi j * atR b0 j)) b0
+    (fun j hj => by rw [atR_tab _ _ _ hj]; exact mul_nonneg (hpi j hj) (hb j hj).le)
+    (by rw [sumK_atR_tab]; exact sumK_mul_pos K pi (atR b0) hpi hb hs) hb
+  refine ⟨h1, h2, fun j hj hp => h3 j hj ?_⟩
+  rw [atR_tab _ _ _ hj]; exact mul_pos hp (hb j hj)
+
+theorem fwdStep_good (K : Nat) (A : Nat → Nat → Rat) (prev b : Vec)
+    (hA : ∀ i j, i < K → j < K → 0 ≤ A i j) (hrow : ∀ i, i < K → 0 < sumK K (A i))
+    (hprev : ∀ i, i < K → 0 ≤ atR prev i) (hsum : sumK K (atR prev) = 1)
+    (hb : ∀ j, j < K → 0 < atR b j) :
+    GoodStep K (fwdStep K A prev b) ∧ sumK K (atR (fwdStep K A prev b).alpha) = 1 := by
+  unfold fwdStep
+  have hu : ∀ j, j < K → 0 ≤ sumK K (fun i => atR prev i * A i j) := fun j hj =>
+    sumK_nonneg K _ (fun i hi => mul_nonneg (hprev i hi) (hA i j hi hj))
+  have hS : 0 < sumK K (fun j => sumK K (fun i => atR prev i * A i j)) := by
+    have e : sumK K (fun j => sumK K (fun i => atR prev i * A i j))
+        = sumK K (fun i => atR prev i * sumK K (A i)) := by
+      simp only [sumK_eq]
+      rw [Finset.sum_comm]
+      apply Finset.sum_congr rfl; intro i _; rw [Finset.mul_sum]
+    rw [e]
+    exact sumK_mul_pos K (atR prev) (fun i => sumK K (A i)) hprev hrow (by rw [hsum]; exact zero_lt_one)
+  obtain ⟨h1, h2, _⟩ := normStep_good K
+    (tab K (fun j => sumK K (fun i => atR prev i * A i j) * atR b j)) b
+    (fun j hj => by rw [atR_tab _ _ _ hj]; exact mul_nonneg (hu j hj) (hb j hj).le)
+    (by rw [sumK_atR_tab]; exact sumK_mul_pos K _ (atR b) hu hb hS) hb
+  exact ⟨h1, h2⟩
+
+theorem fwdFrom_good (K : Nat) (A : Nat → Nat → Rat)
+    (hA : ∀ i j, i < K → j < K → 0 ≤ A i j) (hrow : ∀ i, i < K → 0 < sumK K (A i)) :
+    ∀ (bs : List Vec) (prev : Vec), (∀ i, i < K → 0 ≤ atR prev i) → sumK K (atR prev) = 1 →
+      (∀ b ∈ bs, ∀ j, j < K → 0 < atR b j) → ∀ s ∈ fwdFrom K A prev bs, GoodStep K s
+  | [], _, _, _, _ => by simp [fwdFrom]
+  | b :: bs, prev, hprev, hsum, hb => by
+    obtain ⟨hg, hs⟩ := fwdStep_good K A prev b hA hrow hprev hsum (hb b (by simp))
+    intro s hs'
+    simp only [fwdFrom, List.mem_cons] at hs'
+    rcases hs' with rfl | hs'
+    · exact hg
+    · exact fwdFrom_good K A hA hrow bs _ hg.2.1 hs (fun b' hb' => hb b' (by simp [hb'])) s hs'
+
+theorem atR_had (K : Nat) (a b : Vec) (i : Nat) (hi : i < K) : atR (had K a b) i = atR a i * atR b i := by
+  simp only [had]; rw [atR_tab _ _ _ hi]
+
+/-- `β̂ > 0`, `γ ≥ 0`, `ξ ≥ 0`, and `γ_t(i) > 0` where `α̂_t(i) > 0` (first time point of the suffix). -/
+theorem smooth_pos (K : Nat) (A : Nat → Nat → Rat)
+    (hA : ∀ i j, i < K → j < K → 0 ≤ A i j) (hrow : ∀ i, i < K → 0 < sumK K (A i)) :
+    ∀ (rest : List Step) (s : Step), GoodStep K s → (∀ s' ∈ rest, GoodStep K s') →
+      (∀ i, i < K → 0 < atR (smooth K A s rest).1 i) ∧
+      (∀ g ∈ (smooth K A s rest).2.1, ∀ i, i < K → 0 ≤ atR g i) ∧
+      (∀ x ∈ (smooth K A s rest).2.2, ∀ i j, i < K → j < K → 0 ≤ atR (x.getD i []) j) ∧
+      (∀ i, i < K → 0 < atR s.alpha i → 0 < atR ((smooth K A s rest).2.1.headD []) i)
+  | [], s, hs, _ => by
+    simp only [smooth]
+    refine ⟨fun i hi => by rw [atR_tab _ _ _ hi]; exact zero_lt_one, ?_, by simp, ?_⟩
+    · intro g hg i hi
+      simp only [List.mem_singleton] at hg; subst hg
+      rw [atR_had K _ _ i hi, atR_tab _ _ _ hi, mul_one]; exact hs.2.1 i hi
+    · intro i hi h
+      simp only [List.headD_cons]
+      rw [atR_had K _ _ i hi, atR_tab _ _ _ hi, mul_one]; exact h
+  | s' :: rest, s, hs, hrest => by
+    have hs' : GoodStep K s' := hrest s' (by simp)
+    obtain ⟨ih1, ih2, ih3, _⟩ := smooth_pos K A hA hrow rest s' hs' (fun x hx => hrest x (by simp [hx]))
+    simp only [smooth]
+    generalize smooth K A s' rest = r at ih1 ih2 ih3 ⊢
+    have hβ : ∀ i, i < K → 0 < atR (backStep K A s' r.1) i := by
+      intro i hi
+      simp only [backStep]; rw [atR_tab _ _ _ hi]
+      refine div_pos ?_ hs'.1
+      have := sumK_mul_pos K (A i) (fun j => atR s'.b j * atR r.1 j) (fun j hj => hA i j hi hj)
+        (fun j hj => mul_pos (hs'.2.2 j hj) (ih1 j hj)) (hrow i hi)
+      refine lt_of_lt_of_eq this (sumK_congr _ _ _ (fun j _ => by ring))
+    refine ⟨hβ, ?_, ?_, ?_⟩
+    · intro g hg i hi
+      simp only [List.mem_cons] at hg
+      rcases hg with rfl | hg
+      · rw [atR_had K _ _ i hi]; exact mul_nonneg (hs.2.1 i hi) (hβ i hi).le
+      · exact ih2 g hg i hi
+    · intro x hx i j hi hj
+      simp only [List.mem_cons] at hx
+      rcases hx with rfl | hx
+      · rw [atR_xiOf K A _ _ _ i j hi hj]
+        exact div_nonneg (mul_nonneg (mul_nonneg (mul_nonneg (hs.2.1 i hi) (hA i j hi hj))
+          (hs'.2.2 j hj).le) (ih1 j hj).le) hs'.1.le
+      · exact ih3 x hx i j hi hj
+    · intro i hi h
+      simp only [List.headD_cons]
+      rw [atR_had K _ _ i hi]; exact mul_pos h (hβ i hi)
+
+/-- the Boolean check `posModel` spelled out -/
+theorem posModel_spec (K : Nat) (pi : Nat → Rat) (A : Nat → Nat → Rat) (B : List Vec)
+    (h : posModel K pi A B = true) :
+    (∀ i, i < K → 0 ≤ pi i) ∧ 0 < sumK K pi ∧ (∀ i j, i < K → j < K → 0 ≤ A i j) ∧
+    (∀ i, i < K → 0 < sumK K (A i)) ∧ (∀ b ∈ B, ∀ j, j < K → 0 < atR b j) := by
+  simp only [posModel, Bool.and_eq_true, List.all_eq_true, List.mem_range, decide_eq_true_eq] at h
+  obtain ⟨⟨⟨h1, h2⟩, h3⟩, h4⟩ := h
+  exact ⟨h1, h2, fun i j hi hj => (h3 i hi).1 j hj, fun i hi => (h3 i hi).2, h4⟩
+
+/-- All the positivity facts of one `forward_backward` + `calculate_temporary_variables` call. -/
+theorem fb_pos (K : Nat) (pi : Nat → Rat) (A : Nat → Nat → Rat) (b0 : Vec) (bs : List Vec)
+    (h : posModel K pi A (b0 :: bs) = true) :
+    (∀ s ∈ initStep K pi b0 :: fwdFrom K A (initStep K pi b0).alpha bs, 0 < s.c) ∧
+    (∀ g ∈ (smooth K A (initStep K pi b0) (fwdFrom K A (initStep K pi b0).alpha bs)).2.1,
+      ∀ i, i < K → 0 ≤ atR g i) ∧
+    (∀ x ∈ (smooth K A (initStep K pi b0) (fwdFrom K A (initStep K pi b0).alpha bs)).2.2,
+      ∀ i j, i < K → j < K → 0 ≤ atR (x.getD i []) j) ∧
+    (∀ i, i < K → 0 < pi i →
+      0 < atR ((smooth K A (initStep K pi b0) (fwdFrom K A (initStep K pi b0).alpha bs)).2.1.headD []) i) := by
+  obtain ⟨hpi, hps, hA, hrow, hB⟩ := posModel_spec K pi A _ h
+  obtain ⟨g0, s0, p0⟩ := initStep_good K pi b0 hpi hps (hB b0 (by simp))
+  have hrest := fwdFrom_good K A hA hrow bs _ g0.2.1 s0 (fun b hb => hB b (by simp [hb]))
+  obtain ⟨_, k2, k3, k4⟩ := smooth_pos K A hA hrow _ _ g0 hrest
+  refine ⟨?_, k2, k3, fun i hi hp => k4 i hi (p0 i hi hp)⟩
+  intro s hs
+  simp only [List.mem_cons] at hs
+  rcases hs with rfl | hs
+  · exact g0.1
+  · exact (hrest s hs).1
+
+theorem sumT_nonneg {α} (l : List α) (f : α → Rat) (h : ∀ x ∈ l, 0 ≤ f x) : 0 ≤ sumT l f := by
+  unfold sumT
+  induction l with
+  | nil => simp
+  | cons x xs ih =>
+    simp only [List.map_cons, List.sum_cons]
+    exact add_nonneg (h x (by simp)) (ih (fun y hy => h y (by simp [hy])))
+
+theorem prodL_pos : ∀ l : List Rat, (∀ x ∈ l, 0 < x) → 0 < prodL l
+  | [], _ => by simp [prodL]
+  | x :: xs, h => by
+    simp only [prodL]
+    exact mul_pos (h x (by simp)) (prodL_pos xs (fun y hy => h y (by simp [hy])))
+
+end pos
 end Verif.C16
